@@ -105,7 +105,7 @@ func (d *DB) Write(b *Blk, withCache bool) (ok bool, err error) {
 }
 
 func (d *DB) MergePerm() (bool, error) { return d.Center.VerifMergePermanent(context.Background()) }
-func (d *DB) Clean(limit int) error     { return d.Center.VerifCleanRemoved(limit) }
+func (d *DB) Clean(limit int) error    { return d.Center.VerifCleanRemoved(limit) }
 func (d *DB) Remove(h int64) (bool, error) {
 	return d.Center.RemoveBlocks(base.Height(h))
 }
@@ -315,4 +315,38 @@ func Kind(name string) string {
 		}
 	}
 	return name
+}
+
+// RawAll returns every *Bytes read as raw bytes (enchint | meta | body), for byte-for-byte comparison
+// before / after a reopen.
+func (r ImplReader) RawAll(c Cfg) (names []string, raws []string) {
+	add := func(name string, ht string, meta, body []byte, found bool, err error) {
+		names = append(names, name)
+		if err != nil {
+			raws = append(raws, "error")
+			return
+		}
+		raws = append(raws, fmt.Sprintf("%v|%s|%x|%x", found, ht, meta, body))
+	}
+	for k := 0; k <= c.NKeys; k++ {
+		ht, meta, body, found, err := r.D.Center.StateBytes(r.w().KeyName(k))
+		add(fmt.Sprintf("StateBytes(%d)", k), ht, meta, body, found, err)
+	}
+	for h := c.HLo; h <= c.HHi; h++ {
+		ht, meta, body, found, err := r.D.Center.BlockMapBytes(base.Height(h))
+		add(fmt.Sprintf("BlockMapBytes(%d)", h), ht, meta, body, found, err)
+	}
+	{
+		ht, meta, body, found, err := r.D.Center.LastBlockMapBytes()
+		add("LastBlockMapBytes", ht, meta, body, found, err)
+	}
+	for sh := int64(-1); sh <= c.SHHi; sh++ {
+		ht, meta, body, found, err := r.D.Center.SuffrageProofBytes(base.Height(sh))
+		add(fmt.Sprintf("SuffrageProofBytes(%d)", sh), ht, meta, body, found, err)
+	}
+	{
+		ht, meta, body, found, _, err := r.D.Center.LastSuffrageProofBytes()
+		add("LastSuffrageProofBytes", ht, meta, body, found, err)
+	}
+	return names, raws
 }
